@@ -31,6 +31,10 @@ HAND = [
  (["param (p, q)\nw := 7", "return [p, q, w]"], "return [p, q, w]"),
  (["param (p, ...q)\nc := 1\nreturn [p, q, c]", "return [p, q, c]"], "return [p, q, c]"),
  (["param (...q)\nc := 1", "return [q, c]"], "return [q, c]"),
+ # function literals with the same text are different functions, in one script as in two fragments
+ (["f := func(a) { return a + 1 }", "g := func(a) { return a + 1 }", "return [f == g, f != g, [f] == [g], f(1), g(2)]"], "return [f == g, {k: f} == {k: g}]"),
+ (["f := func(a) { return a + 1 }\ng := func(a) { return a + 1 }", "h := func(a) { return a + 1 }\nreturn [f == g, f == h, g != h]"], "return [f == g, f == h, f == f]"),
+ (["fs := [func() { return 1 }, func() { return 1 }]", "gs := [func() { return 1 }]\nreturn [fs[0] == fs[1], fs[0] == gs[0], fs == gs]"], "return [fs[0] == fs[1], fs[1] == gs[0]]"),
  # the host's arguments wait for a param statement of a later fragment (no variable declared before it)
  (["return 1 + 1", "param (p, q)\nreturn [p, q]", "return q"], "return [p, q]"),
  (["const k = 2\nglobal g0", "return k + 1", "param (p, ...q)", "w := [p, q]\nreturn w"], "return [p, q, w, k]"),
